@@ -280,6 +280,10 @@ def thrift_sem():
     d.const("C_INT", b("i32"), "42")
     d.typedef("TdI64", b("i64"))
     d.typedef("TdName", b("string"))
+    d.typedef("TdColor", ref("Color"))
+    d.const("C_INT2", b("i32"), "C_INT")
+    d.const("C_DBL", b("double"), "5")
+    d.const("C_NEG", b("i64"), "-77")
     # field names in every spelling style: the literal's keys are IDL names, not Rust names
     d.struct("Pt", [fld(1, "xPos", b("i32")), fld(2, "Y", b("i32")), fld(3, "label_text", b("string")), fld(4, "type", b("string")),
                     fld(5, "HTTPCode", b("i16"))])
@@ -301,6 +305,27 @@ def thrift_sem():
         ("pt", ref("Pt"), '{"xPos": 1, "Y": 2, "label_text": "p", "type": "t", "HTTPCode": 404}',
          vStruct([(1, vI("I32", 1)), (2, vI("I32", 2)), (3, vBin("p")), (4, vBin("t")), (5, vI("I16", 404))])),
         ("pt_part", ref("Pt"), '{"Y": 9}', vStruct([(2, vI("I32", 9))])),
+        # integers written where a double is expected: exact up to 2^53
+        ("dbig", b("double"), "16777217", vDouble(16777217)), ("dnegbig", b("double"), "-123456789", vDouble(-123456789)),
+        ("du32", b("double"), "4294967295", vDouble(4294967295)), ("d2p53", b("double"), "9007199254740992", vDouble(9007199254740992)),
+        ("dexp", b("double"), "1e10", vDouble(1e10)), ("dnegexp", b("double"), "-1.5e-3", vDouble(-1.5e-3)), ("dbigexp", b("double"), "1.7976931348623157e308", vDouble(1.7976931348623157e308)),
+        ("dzero", b("double"), "0", vDouble(0)), ("dfrac", b("double"), "0.1", vDouble(0.1)),
+        # extremes of every integer width, negative numbers
+        ("i8min", b("i8"), "-128", vI("I8", -128)), ("i8max", b("i8"), "127", vI("I8", 127)),
+        ("i16min", b("i16"), "-32768", vI("I16", -32768)), ("i16max", b("i16"), "32767", vI("I16", 32767)),
+        ("i32min", b("i32"), "-2147483648", vI("I32", -2147483648)), ("i32max", b("i32"), "2147483647", vI("I32", 2147483647)),
+        ("i64min", b("i64"), "-9223372036854775808", vI("I64", -9223372036854775808)), ("i64max", b("i64"), "9223372036854775807", vI("I64", 9223372036854775807)),
+        ("ihex", b("i32"), "0x7f", vI("I32", 127)), ("izero", b("i32"), "0", vI("I32", 0)), ("ineg1", b("i64"), "-1", vI("I64", -1)),
+        # containers of doubles / nested containers / other key types
+        ("ld", lst(b("double")), "[1, 2.5, 16777217]", vList("Double", [vDouble(1), vDouble(2.5), vDouble(16777217)])),
+        ("msd", mp(b("string"), b("double")), '{"a": 3}', vMap("Bin", "Double", [(vBin("a"), vDouble(3))])),
+        ("mil", mp(b("i32"), lst(b("string"))), '{7: ["x", "y"]}', vMap("I32", "List", [(vI("I32", 7), vList("Bin", [vBin("x"), vBin("y")]))])),
+        ("si64", st(b("i64")), "[5000000000]", vSet("I64", [vI("I64", 5000000000)])),
+        ("lb", lst(b("bool")), "[true, false]", vList("Bool", [vBool(True), vBool(False)])),
+        # constants through other constants, doubles from integer constants, enum through typedef
+        ("cchain", b("i32"), "C_INT2", vI("I32", 42)), ("cdbl", b("double"), "C_DBL", vDouble(5)), ("cneg", b("i64"), "C_NEG", vI("I64", -77)),
+        ("tden", ref("TdColor"), "Color.Blue", vI("I32", 7)),
+        ("ssq", b("string"), "'single'", vBin("single")),
     ]
     for req, nm in [("optional", "DOpt"), ("required", "DReq"), ("default", "DDef")]:
         d.struct(nm, [fld(i + 1, n, t, req, lit=lit, default=val) for i, (n, t, lit, val) in enumerate(cases)])
@@ -609,6 +634,14 @@ struct Model { 1: string b, 2: optional multi_v1.Model old, 3: list<multi_v1.Onl
 """,
     }
     docs.append(RawDoc("multi_file", files, main="multi_main.thrift", label="includes-namespaces-cross-file-references"))
+    # several files that generate into ONE Rust module (same rs namespace): legal, pilota only warns
+    shared = {"shared_main.thrift": "".join('include "shared_p%d.thrift"\n' % i for i in range(1, 6)) +
+              "namespace rs shared.model\n\nstruct MainRec { " + " ".join("%d: optional shared_p%d.Part%dKey k%d," % (i, i, i, i) for i in range(1, 6)) + " }\n"
+              "service SharedSvc { MainRec get(1: shared_p1.Part1Key k) }\n"}
+    for i in range(1, 6):
+        shared["shared_p%d.thrift" % i] = ("namespace rs shared.model\n\nstruct Part%dKey { 1: i32 id, 2: string name }\n"
+                                           "struct Part%dValue { 1: optional Part%dKey key, 2: list<i64> xs }\nenum Part%dKind { A = 0, B = 1 }\n" % (i, i, i, i))
+    docs.append(RawDoc("shared_ns", shared, main="shared_main.thrift", label="several-files-one-rust-module"))
     # services: oneway, void, extends within the file, many args, no-arg, annotations on methods
     body = """struct R { 1: i32 a }
 exception E1 { 1: string m }
